@@ -24,8 +24,10 @@ cmake --build $B -j16 >/dev/null 2>&1 || { echo "BUILD FAILS without change"; ex
 echo "demo without change: rc=$RC2"
 if [ $RC1 -ne 0 ] && [ $RC2 -eq 0 ]; then
   mkdir -p /verif/seeded/$NAME
+  # every delivered source file (scripts, C, python, small inputs); not directories, binaries or files > 1 MB
+  find $D -maxdepth 1 -type f -size -1024k ! -perm -u+x -exec cp {} /verif/seeded/$NAME/ \; 2>/dev/null
   cp $D/patch.diff $D/run_demo.sh $D/meta.json /verif/seeded/$NAME/ 2>/dev/null
-  cp $D/demo* /verif/seeded/$NAME/ 2>/dev/null
+  for f in $D/*.sh $D/*.py $D/*.c $D/*.h; do [ -f "$f" ] && cp "$f" /verif/seeded/$NAME/; done
   python3 - "$NAME" "$SUMMARY" "$RC1" "$RC2" <<'PY'
 import json,sys
 name,summary,rc1,rc2=sys.argv[1:]
